@@ -208,7 +208,8 @@ def wcs_spec(rng, proj=None, parity=None, frame=None, scale=None, crval=None, co
         hdr['RADESYS'] = 'ICRS'
     elif frame == 'fk5':
         hdr['RADESYS'] = 'FK5'
-        hdr['EQUINOX'] = 2000.0
+        # FK5 positions carry an equinox: not only the default one
+        hdr['EQUINOX'] = rng.choice([2000.0, 2000.0, 1975.0, 2015.5])
     elif frame == 'fk4':
         hdr['RADESYS'] = 'FK4'
         hdr['EQUINOX'] = 1950.0
